@@ -272,8 +272,9 @@ class Harness:
             "wall_s": round(wall, 2),
             "violations": len(viols),
         }
-        os.makedirs(os.path.join(VERIF, "evidence"), exist_ok=True)
-        with open(os.path.join(VERIF, "evidence", self.pid + ".json"), "w") as f:
+        evdir = os.environ.get("VERIF_EVIDENCE_DIR") or os.path.join(VERIF, "evidence")
+        os.makedirs(evdir, exist_ok=True)
+        with open(os.path.join(evdir, self.pid + ".json"), "w") as f:
             json.dump(json.loads(jdump(ev)), f, indent=1, sort_keys=True)
             f.write("\n")
         for fid, cnt in sorted(st.known.items()):
